@@ -19,6 +19,27 @@ CHECK = "check"
 TAG = "c13"
 
 
+PER_FILE = 100  # cases per coqc process: the 500-op cases are large terms; keeps each coqc below ~300 MB
+
+
+def correspond(binpath, items, tag):
+    """F.correspond with smaller coqc shards (same helpers: run_bin_parallel + coq_check_cases)."""
+    rc, outl, err = F.run_bin_parallel(binpath, [it["line"] for it in items])
+    errors = []
+    if rc != 0 or len(outl) != len(items):
+        errors.append(("harness", f"rc={rc} lines={len(outl)}/{len(items)} stderr={err[-1500:]}"))
+        return outl, [], errors
+    terms = []
+    for it, o in zip(items, outl):
+        try:
+            terms.append(f"({it['coq']}, {F.zlistlist(F.norm_obs_line(o))})")
+        except ValueError:
+            errors.append(("harness", f"unparsable observation line {o[:200]!r} for {it['line'][:200]!r}"))
+            return outl, [], errors
+    bad, cerrs = F.coq_check_cases(tag, HEADER, CHECK, terms, per_file=PER_FILE)
+    return outl, bad, errors + cerrs
+
+
 def coq_op(o):
     return {"s": lambda: "ZSend", "n": lambda: f"ZNext {F.zlit(o[1])}", "p": lambda: f"ZPending {F.zlit(o[1])}",
             "d": lambda: f"ZDrop {F.zlit(o[1])}"}[o[0]]()
@@ -207,7 +228,7 @@ def gen_cases(rng, tier):
     for ops in exhaustive(depth, 3):
         items.append(build(dict(kind=f"exh{depth}", ops=ops)))
     n_exh = len(items)
-    n_rand = 240 if tier == "quick" else 3000
+    n_rand = 160 if tier == "quick" else 3000
     rand = []
     for k in range(n_rand):
         r = rng.fork(f"sched{k}")
@@ -289,7 +310,7 @@ def main(rep, tier, seed):
     corpus = load_corpus()
     items, n_exh = gen_cases(rng, tier)
     items = corpus + items
-    outl, bad, errors = F.correspond(binpath, items, HEADER, CHECK, TAG)
+    outl, bad, errors = correspond(binpath, items, TAG)
     for name, msg in errors:
         rep.violation("correspondence_error_" + name.replace("/", "_"),
                       {"kind": "correspondence could not be evaluated", "where": name, "log": msg}, no_input=True)
@@ -311,7 +332,7 @@ def main(rep, tier, seed):
         it = items[idx]
 
         def fails(c):
-            o, b, e = F.correspond(binpath, [c], HEADER, CHECK, TAG + "_shrink")
+            o, b, e = correspond(binpath, [c], TAG + "_shrink")
             return bool(b) and not e
 
         small = F.shrink_ops(it, build, fails)
@@ -360,6 +381,6 @@ def replay(path):
     print("case:", it["line"])
     print("implementation:", out)
     print("model:", model)
-    o, bad, errs = F.correspond(binpath, [it], HEADER, CHECK, TAG + "_replay")
+    o, bad, errs = correspond(binpath, [it], TAG + "_replay")
     print("AGREE" if not bad and not errs else "DISAGREE")
     return 1 if bad or errs else 0
